@@ -2,6 +2,9 @@
 
 Two ties, one monitor each:
 
+(a2-a4, round 3) edge chain, box nesting, circle: Lean `Model/GeomEdge|GeomTree|GeomCircle` against the real
+    `aird._edge_factories.generic_factory` / `snaptarget`, `aird._box_factories.generic_factory` (both driven through the XML
+    attributes the parser reads) and `Circle.vector_snap`; monitors: ends on outlines, nesting, translation of the implementation.
 (a) kernel: Lean `Capella.Geom` (vectorSnap, boxsnap, lineIntersect, closestaxis, snapPort, snapChild,
     bounds/viewport, edgeSnap, route_*) against the real `capellambse.diagram` code on an exhaustive
     integer lattice and on seeded rational-/real-valued cases.  Monitor: the statement itself on the
@@ -38,29 +41,42 @@ RULE = ("kernel: every (box, point, source, style, port) with proper boxes havin
         "of every corpus model x (3 fixed + 3 seeded | thorough: 5 fixed + 15 seeded) integer translation vectors in "
         "+-10^4, and one-node moves of 4 seeded (thorough: every) top-level nodes.  distinct = distinct input tuple; non-trivial = some guard of the code is on its boundary, i.e. NOT (point "
         "strictly inside the box, source different from point and off both centre lines) for the kernel, resp. the diagram "
-        "has at least one edge or nested box for the parser")
+        "has at least one edge or nested box for the parser.  Since round 3 also: the kernel boundary lattice at several magnitudes (box (o, o-m, 2m, 4m) for scales "
+        "m = 2^-10, 1, 2^10 (thorough: 2^-20 .. 2^20) and offsets o = 0, -2^20 (thorough: +-2^20, 2^30), all (point, source) pairs from the 5x5 grid of corners / side "
+        "midpoints / centre / outside positions plus 4 points on the diagonals); the edge chain: seeded inputs of generic_factory (two boxes on the integer grid, "
+        "ports, floating labels, source anchor, 0-6 stored bend points placed on the boundaries of the case distinctions, every routing style; quick 1400, thorough "
+        "14000) and snaptarget on an exhaustive lattice (2 boxes (thorough 4) x 5 style/port combinations x end point and neighbour in {-1..3}^2 x two/three points, "
+        "alternating first/last end) plus seeded dyadic cases; box nesting: seeded trees of notation nodes up to depth 5 through _box_factories.generic_factory "
+        "(quick 700, thorough 7000); Circle.vector_snap on seeded dyadic cases (quick 600, thorough 6000)")
 ASSUMPTIONS = [
     "floats: the model is exact over Q; implementation answers are compared exactly when they are exactly the model's rational, else within 1e-9 (kernel) / 1e-6 (parser)",
     "the atan2-based side choice of Box.__vector_snap_closest is modelled by its sign form; on the model-declared ties (source on a diagonal of the box) any of the four side intersections is accepted",
-    "the XML-walking factories, text extents (PIL) and filters are not modelled: the parser is covered by the metamorphic run on the corpus models only (C17 is partial: kernel proved, parser sampled)",
+    "of the parser the edge chain (aird/_edge_factories.generic_factory for an edge between two boxes: bend point decoding, default routes, snaptarget) and box nesting (_box_factories.generic_factory + snap_to_parent down a tree of boxes with positive stored sizes) are modelled; XML walking, labels, text extents (PIL), automatic box sizes, StackingBox, edges that end on edges, and filters are not: they are covered by the metamorphic run on the corpus models only (C17 stays partial)",
+    "math.isclose(a, b) in snap_manhattan/snap_tree is a = b in the model; snap_oblique's `abs(delta) >= 1` (atan2) is a parameter of the model (theorems hold for every decision function), instantiated in the driver by cos^2(angle) <= c for a rational c within 1e-9 of cos^2(1); the driver declares the inputs on which these differ from the float code (none occurred) and the harness does not compare them",
+    "box nesting: a child clamped to a non-positive size component is outside the model (Err.degenerate; the real size property then recomputes it from text extents); a 10x10 port in a parent not larger than 6 px (no proper mid box) is outside the port theorem; both are counted in the evidence, not judged",
+    "Circle.vector_snap (sqrt) is modelled as a relation (on the circle, non-negative multiple of the direction); the float result is checked against the relation with residual bounds 1e-9",
     "SNAPPING is on (AIRD_NOSNAP unset)",
 ]
 TRUSTED = ["C17: fractions.Fraction / float conversion of CPython; lxml for editing the stored layout in memory"]
 MANIFEST = dict(
-    text=("PARTIAL (kernel proved, parser sampled). Lean theorems over an exact rational model of the snapping kernel "
-          "(Box.vector_snap for oblique/closest, Manhattan and tree routing, ports; Vector2D.boxsnap, line_intersect, "
-          "closestaxis; Box.snap_to_parent; bounds and the viewport fold; Edge.vector_snap; route_*): every snap of a "
-          "proper box returns without error a point on its outline (tree: on the top/bottom line, on the side only for "
-          "points within the box's x-range and point != source - recorded finding), ports end attached to the parent's "
-          "border, the viewport encloses every element, and every kernel function commutes with translation. The model is "
-          "tied to /repo by an exhaustive integer-lattice differential run plus seeded rational cases; the aird parser itself "
-          "is not modelled but checked by a metamorphic run (translate the stored layout, move one node) over every diagram "
-          "of the corpus models with an independent soundness monitor."),
+    text=("PARTIAL (kernel, edge chain and box nesting proved; rest of the parser sampled). Lean theorems over an exact rational model of the snapping "
+          "kernel (Box.vector_snap for oblique/closest, Manhattan and tree routing, ports; Vector2D.boxsnap, line_intersect, closestaxis; "
+          "Box.snap_to_parent; bounds and the viewport fold; Edge.vector_snap; route_*; Circle.vector_snap as a relation), of the edge chain "
+          "(aird/_edge_factories: bend point decoding, default routes, snaptarget with snap_oblique/_manhattan/_tree incl. bend insertion and the "
+          "re-snap decision as a parameter) and of box nesting (_box_factories.generic_factory + snap_to_parent down a tree): every snap of a proper "
+          "box returns without error a point on its outline (tree: on the top/bottom line, on the side only for ports and for points within the box's "
+          "x-range with point != source - recorded finding); every straight/Manhattan edge between two proper boxes, with any stored bend points, is "
+          "built without error and starts/ends on the outlines; snaptarget changes only the end; ports end attached to the parent's border and "
+          "children inside every ancestor, to any depth; the viewport encloses every element; every kernel function, the whole edge route, a whole "
+          "box tree and the circle snap commute with translation. Tied to /repo by an exhaustive integer-lattice differential run, boundary lattices "
+          "at several magnitudes, differential runs of the real generic_factory functions (edges, box trees) built from XML attributes, and seeded "
+          "rational cases; the rest of the aird parser is checked by a metamorphic run (translate the stored layout, move one node) over every "
+          "diagram of the corpus models with an independent soundness monitor."),
     design_ref="§6 C17",
-    note=("Partial: only the geometry kernel is proved; the 1200 lines of XML-walking factories, PIL text extents, float "
-          "rounding and atan2 are outside the theorems (sampled on the corpus). Trusted: Lean kernel; sign form of the "
-          "atan2 regions (validated exhaustively on the lattice); harness/props/c17.py."),
-    technique="Lean 4 proof over Rat (case analysis + linear/non-linear arithmetic) + exhaustive lattice differential testing + metamorphic testing of the parser",
+    note=("Partial: XML walking, labels and text extents (PIL), automatic box sizes, StackingBox, edges ending on edges, float rounding, atan2 and sqrt "
+          "are outside the theorems (sampled on the corpus / bounded by residual checks). Trusted: Lean kernel; sign form of the atan2 regions and the "
+          "rational enclosure of cos^2(1) (validated on the lattices); harness/props/c17.py."),
+    technique="Lean 4 proof over Rat (case analysis, induction over point lists and box trees, linear/non-linear arithmetic) + exhaustive lattice differential testing + metamorphic testing of the parser",
 )
 
 TOL = 1e-9
@@ -1654,7 +1670,10 @@ def run(ctx: Ctx) -> Outcome:
     out.extra["source_fingerprints"] = {
         **common.source_fingerprint("capellambse/diagram/_diagram.py", ["Box", "Box.vector_snap", "Box.snap_to_parent", "Box.bounds", "Edge.vector_snap", "Edge.bounds", "Diagram.calculate_viewport"]),
         **common.source_fingerprint("capellambse/diagram/_vector2d.py", ["Vector2D", "line_intersect"]),
-        **common.source_fingerprint("capellambse/aird/_edge_factories.py", ["route_manhattan", "route_tree", "route_oblique", "snap_oblique", "snap_manhattan", "snap_tree"]),
+        **common.source_fingerprint("capellambse/aird/_edge_factories.py", ["route_manhattan", "route_tree", "route_oblique", "snap_oblique", "snap_manhattan", "snap_tree",
+                                                                            "snaptarget", "generic_factory", "_extract_relative_bendpoints"]),
+        **{"box." + k: v for k, v in common.source_fingerprint("capellambse/aird/_box_factories.py", ["generic_factory"]).items()},
+        **common.source_fingerprint("capellambse/diagram/_diagram.py", ["Circle.vector_snap"]),
     }
     out.extra["intround_note"] = {"_intround(-1.2)": je._intround(-1.2), "_intround(1.2)": je._intround(1.2),
                                   "remark": "JSON encoder rounding is not translation-invariant below zero; outside C17's observation point (Diagram objects)"}
